@@ -311,16 +311,23 @@ def mapBraces : MapKind → Str → Str × Str × Str
 /-- decimal digits of a natural number (`f"{n}"`). -/
 def natStr (n : Nat) : Str := (Nat.repr n).toList
 
+/-- the `str`/`bytes` branch of `to_repr`: `f"{obj[:max_string]!r}+{truncated}"` when
+`max_string is not None and len(obj) > max_string`, else `repr(obj)`. -/
+def strRepr (pyRepr : Bool → Str → Str) (maxString : Option Nat) (b : Bool) (cs : Str) : Str :=
+  match maxString with
+  | some m =>
+    if cs.length > m then pyRepr b (cs.take m) ++ ['+'] ++ natStr (cs.length - m)
+    else pyRepr b cs
+  | none => pyRepr b cs
+
+/-- `<repr-error '{error}'>` -/
+def reprError (msg : Str) : Str := "<repr-error '".toList ++ msg ++ "'>".toList
+
 /-- `to_repr(obj)` (pretty.py:402-416). -/
 def toRepr (pyRepr : Bool → Str → Str) (maxString : Option Nat) : Leaf → Str
   | .atom r => r
-  | .broken msg => "<repr-error '".toList ++ msg ++ "'>".toList
-  | .str b cs =>
-    match maxString with
-    | some m =>
-      if cs.length > m then pyRepr b (cs.take m) ++ ['+'] ++ natStr (cs.length - m)
-      else pyRepr b cs
-    | none => pyRepr b cs
+  | .broken msg => reprError msg
+  | .str b cs => strRepr pyRepr maxString b cs
 
 /-- `Node(value_repr="...")` — recursion detected. -/
 def cycleMarker : Node := .mk [] ['.', '.', '.'] [] [] [] false false false []
